@@ -7,6 +7,7 @@ COMMON_ASSUME = [
 ]
 
 REL = {"flavour": "release", "name": "release"}
+REL_EV = {"flavour": "release", "name": "release", "events": "offline_numeric"}
 DBG = {"flavour": "debug", "name": "debug"}
 
 
@@ -70,19 +71,20 @@ P("C06", RM + "recorded parameter offers (kind, pointer, length) inside handlers
   "Oracle: offered tokens are exactly elements 1..min(n,m+o) with identical byte ranges inside the unit's own span; n<m => -109 and nothing later; n>m+o => -108 and the next unit is not invoked; surplus optional pulls yield None.",
   floors={"quick": {"evaluations": 500_000, "offers.checked": 2_000_000, "messages.err-108": 50_000, "messages.err-109": 50_000}, "thorough": {"evaluations": 20_000_000}})
 
-P("C07", RM + "differential oracle with exact decimal arithmetic (nearest-integer sets incl. double-resolution tolerance) over boundary-directed literals for all ten integer types; Miri on the boundary set",
+P("C07", RM + "offline checker (exact rational arithmetic in Python) over the recorded conversion event log + in-process differential oracle with exact decimal arithmetic (nearest-integer sets incl. double-resolution tolerance) over boundary-directed literals for all ten integer types; Miri on the boundary set",
   "literals: every NRf spelling of values at type bound +-{0,0.4,0.49..9,0.5,0.50..01,0.6,1}, 2^52/2^53/2^63/2^64 neighbourhoods, zero in 16 spellings, random literals with exponents -400..400 and up to 25 digits, "
   "exhaustive k/8 grid for the 8-bit types; non-decimal literals through the real lexer; MIN/MAX keywords and near misses; suffixed and non-numeric elements. "
   "Oracle: acceptable results = nearest integers of the exact value (both at a tie) united with those of the correctly rounded double/single (Rust core parser); all representable => one of them, none => -222, mixed => either. Non-trivial = distinct (literal,type).",
   ["correct rounding of decimal->binary by Rust's core library is trusted as the second reference"],
-  quick=[REL, DBG, miri(16, 900)], thorough=[REL, DBG, miri(16, 3600, ["--tier", "thorough"], 1500)],
-  floors={"quick": {"evaluations": 1_000_000, "decimal.in-range": 200_000, "decimal.out-of-range": 200_000, "decimal.tie": 5_000}, "thorough": {"evaluations": 40_000_000}})
+  quick=[REL_EV, DBG, miri(16, 900)], thorough=[REL_EV, DBG, miri(16, 3600, ["--tier", "thorough"], 1500)],
+  floors={"quick": {"evaluations": 1_000_000, "offline.checked.int": 20_000, "decimal.in-range": 200_000, "decimal.out-of-range": 200_000, "decimal.tie": 5_000}, "thorough": {"evaluations": 40_000_000}})
 
-P("C08", RM + "differential oracle: float conversions against Rust core's correctly rounded parser (bit equality) incl. exact midpoint expansions; exact-decimal oracle for booleans; target x element-kind acceptance matrix",
+P("C08", RM + "offline checker (decimal->binary rounding from first principles with fractions.Fraction) over the recorded event log + in-process differential oracle: float conversions against Rust core's correctly rounded parser (bit equality) incl. exact midpoint expansions; exact-decimal oracle for booleans; target x element-kind acceptance matrix",
   "float literals: zero spellings, exponents -400..400, shortest representations of random f32/f64, exact decimal expansions of f32 midpoints (halfway cases), 17-20 digit cases, overflow/underflow thresholds, powers of two and ten, 30-800 digit strings; "
   "boolean numerics around 0.5 and beyond 64 bits, ON/OFF and near misses; INF/NINF/NAN/MAX/MIN keywords and near misses; every (target, element kind) pair for 10 targets. Non-trivial = distinct literals / matrix cells.",
   ["Rust core's str::parse::<f32/f64> is correctly rounded (independent of lexical-core)"],
-  floors={"quick": {"evaluations": 3_000_000, "f64.normal": 300_000, "f32.subnormal": 5_000, "matrix.rejecting-cell": 500_000}, "thorough": {"evaluations": 100_000_000}})
+  quick=[REL_EV, DBG], thorough=[REL_EV, DBG],
+  floors={"quick": {"evaluations": 3_000_000, "offline.checked.float": 30_000, "offline.checked.bool": 5_000, "f64.normal": 300_000, "f32.subnormal": 5_000, "matrix.rejecting-cell": 500_000}, "thorough": {"evaluations": 100_000_000}})
 
 P("C09", RM + "round-trip oracle: emitted response text decoded by independent decoders and by the library's own parser must give back the formatted value; exhaustive for 8/16-bit integers (and all 2^32 f32 patterns in thorough); Miri on extreme numbers",
   "integers: all u8/i8/u16/i16 (decimal; #H/#Q/#B for non-negative), boundary+random 32/64/size; f32: strided sample of all bit patterns (quick) / all 2^32 (thorough); f64: subnormals, powers of 2 and 10, 2^53 neighbourhood, 17-digit cases, random bits; "
